@@ -76,12 +76,11 @@ def handle (toks : List String) : String :=
     match parseHex h with
     | none => "bad-op"
     | some bs =>
-      match thriftSkipFields (bs.length + 1) 4 bs with
+      -- an id that FileMetaData knows (1..9) is parsed, not skipped: outside this model
+      match thriftSkipFields (fun i => decide (1 ≤ i ∧ i ≤ 9)) (bs.length + 1) 4 bs with
       | none => "SKIP"
       | some (.error _) => "ERR"
-      | some (.ok (ids, _)) =>
-        -- an id that FileMetaData knows (1..9) is parsed, not skipped: outside this model
-        if ids.any (fun i => 1 ≤ i ∧ i ≤ 9) then "SKIP" else "ok"
+      | some (.ok _) => "ok"
   -- BitReader::get_vlq_int / get_zigzag_vlq_int
   | ["bvlq", h] =>
     match parseHex h with
